@@ -1,8 +1,7 @@
 /* vtimer.c — fast-forward for the daemon's timer thread, linked with -Wl,--wrap=clock_gettime,--wrap=pthread_cond_timedwait.
    Bytes 8..15 of the file named by VERIF_CLOCK_FILE hold a little-endian int64 offset in milliseconds that is ADDED to
    CLOCK_REALTIME as munged's objects see it (timer.c, clock.c); an absolute deadline handed to pthread_cond_timedwait is
-   translated back.  Raising the offset makes pending timers due; the sleeping timer thread notices at its next wake-up
-   (rig.Daemon.advance_timers pokes it with SIGHUP, which queues a timer and signals the condition variable). */
+   translated back.  Raising the offset makes pending timers due; the timer thread notices within 50 ms (sliced wait below). */
 #include <fcntl.h>
 #include <pthread.h>
 #include <stdint.h>
@@ -39,11 +38,26 @@ int __wrap_clock_gettime(clockid_t id, struct timespec *ts) {
     return rv;
 }
 /* no stack object and no instrumentation here: the timer thread is cancelled inside this call at shutdown, and ASan's
-   no-return handling of the forced unwind would otherwise flag this frame's local */
+   no-return handling of the forced unwind would otherwise flag this frame's local.
+   The wait is done in slices of at most 50 ms of real time, re-reading the offset before each: a raised offset makes a
+   pending deadline due within 50 ms, without anything having to wake the timer thread. */
+#include <errno.h>
 __attribute__((no_sanitize("address")))
 int __wrap_pthread_cond_timedwait(pthread_cond_t *c, pthread_mutex_t *m, const struct timespec *abs) {
-    static __thread struct timespec t;
-    t = *abs;
-    shift(&t, -off_ms());
-    return __real_pthread_cond_timedwait(c, m, &t);
+    static __thread struct timespec now, dl;
+    for (;;) {
+        int64_t left_ns; int rc;
+        __real_clock_gettime(CLOCK_REALTIME, &now);
+        dl = now;                                   /* real now */
+        shift(&now, off_ms());                      /* virtual now */
+        left_ns = ((int64_t) abs->tv_sec - (int64_t) now.tv_sec) * 1000000000LL + ((int64_t) abs->tv_nsec - (int64_t) now.tv_nsec);
+        if (left_ns <= 0) return ETIMEDOUT;         /* mutex still held, as after a timed-out wait */
+        if (left_ns > 50000000LL) left_ns = 50000000LL;
+        shift(&dl, 0);
+        dl.tv_nsec += (long) (left_ns % 1000000000LL);
+        dl.tv_sec += (time_t) (left_ns / 1000000000LL);
+        if (dl.tv_nsec >= 1000000000L) { dl.tv_nsec -= 1000000000L; dl.tv_sec++; }
+        rc = __real_pthread_cond_timedwait(c, m, &dl);
+        if (rc != ETIMEDOUT) return rc;
+    }
 }
